@@ -1410,7 +1410,10 @@ class Exec(object):
 
     def s_Assert(self, p, st):
         c = self.truth(self.ev(p, st.test))
-        self.oblig(p, 'assert:%d' % st.lineno, 'safety', c, st.lineno)
+        if self.c.raises is not None:       # a failing assertion is an exception: justified by the `raises` condition, the path continues with the assertion true
+            self.oblig(p, 'assert-or-raise-justified:%d' % st.lineno, 'post', Or(c, self.raises_cond(p)), st.lineno)
+        else:
+            self.oblig(p, 'assert:%d' % st.lineno, 'safety', c, st.lineno)
         p.pc.append(c); return [p]
 
     def raises_cond(self, p, site=None):
